@@ -29,6 +29,8 @@ META = {
     "explanation": "symbolic execution of hid.tridonic._bus_watch/_handle_read/_callback._invoke and of the "
                    "serial receivers' _process_* with symbolic report fields under a virtual clock",
     "bounds": ["serial: one observed frame from an arbitrary remembered device type (induction), 0..3 queues",
+               "subscriber registries (serial queues, hid callbacks): every history of 4 (thorough 6) join/leave "
+               "operations, solver-chosen",
                "Tridonic: histories of 2 (thorough 3) reports x 11 report kinds x symbolic fields x gap "
                "shorter/longer than the timeout x own/observed origin; subscribers 0..2"],
     "stubs": ["fake os (harness environment)", "struct format interpreter in symbolic mode",
@@ -81,6 +83,70 @@ def h_serial_observed(ctx, which, bits, nq):
         ctx.prove(gone.qsize() == 0, "unsubscribed queue still receives", key=tag + "/unsubscribed")
         ctx.prove(p.queue_rx_dali.qsize() == 0 or True, "", key=tag + "/parent")
         return "ok"
+
+
+def h_subscriber_history(ctx, which, steps):
+    """Every history of `steps` join/leave operations (solver-chosen), then one observed frame:
+    exactly the queues subscribed at that time get exactly one copy."""
+    with _patched(ctx):
+        p = S.DriverLubaRs232.LubaProtocol() if which == "luba" else S.DriverSCIRS232.SCIRS232Protocol()
+        parent = p.queue_rx_dali
+        alive, gone, names = [], [], []
+        for step in range(steps):
+            op = ctx.fresh_choice("op%d" % step, 1 + len(alive))
+            if op == 0:
+                q = S.DistributorQueue(parent)
+                alive.append(q)
+                names.append("join")
+            else:
+                q = alive.pop(op - 1)
+                parent.del_handler(q)
+                gone.append(q)
+                names.append("leave%d" % (op - 1))
+        pkt = rigs.luba_event_rx([0x12, 0x34]) if which == "luba" else rigs.sci_frame(0x13, 0, 0x12, 0x34)
+        st, r = call(p.data_received, pkt)
+        tag = "%s-subscribers" % which
+        ctx.prove(st == "ok", "receiver raised %r" % (r,), key=tag + "/raised")
+        for i, q in enumerate(alive):
+            ctx.prove(q.qsize() == 1, "history %s: subscribed queue %d got %d copies" % (names, i, q.qsize()),
+                      key=tag + "/delivery")
+        for q in gone:
+            ctx.prove(q.qsize() == 0, "history %s: an unsubscribed queue still receives" % (names,),
+                      key=tag + "/unsubscribed")
+        return " ".join(names)
+
+
+def h_callback_history(ctx, steps):
+    """The same for the hid drivers' callback registry (bus_traffic / connection status)."""
+    parent = object()
+    cb = H._callback(parent)
+    alive, gone, calls = [], [], {}
+    names = []
+    for step in range(steps):
+        op = ctx.fresh_choice("op%d" % step, 1 + len(alive))
+        if op == 0:
+            k = len(calls)
+            calls[k] = []
+            alive.append((k, cb.register(lambda par, *a, k=k: calls[k].append(a))))
+            names.append("join")
+        else:
+            k, h = alive.pop(op - 1)
+            h.unregister()
+            gone.append(k)
+            names.append("leave%d" % (op - 1))
+
+    async def main(loop):
+        cb._invoke("x", 1)
+        await vloop.settle(3)
+    st, r = call(vloop.run, main)
+    ctx.prove(st == "ok", "invoke raised %r" % (r,), key="callbacks/raised")
+    for k, h in alive:
+        ctx.prove(calls[k] == [("x", 1)], "history %s: registered callback %d got %r" % (names, k, calls[k]),
+                  key="callbacks/delivery")
+    for k in gone:
+        ctx.prove(calls[k] == [], "history %s: an unregistered callback was still called" % (names,),
+                  key="callbacks/unregistered")
+    return " ".join(names)
 
 
 # ---------------------------------------------------------------------------------------------
@@ -313,6 +379,10 @@ def cases(tier):
             for nq in (0, 1, 3):
                 cs.append(Case("%s-observed-%d-q%d" % (which, bits, nq), h_serial_observed,
                                {"which": which, "bits": bits, "nq": nq}))
+    nsteps = 4 if tier == "quick" else 6
+    for which in ("luba", "sci"):
+        cs.append(Case("%s-subscriber-history" % which, h_subscriber_history, {"which": which, "steps": nsteps}))
+    cs.append(Case("callback-history", h_callback_history, {"steps": nsteps}))
     inst = rigs.install_tridonic_structs
     if tier == "quick":
         for k1 in KINDS:
